@@ -198,3 +198,39 @@ def check_whole_text(ctx, rid):
                   for p_ in ast.walk(m.f.node) if isinstance(p_, (ast.GeneratorExp, ast.ListComp))) if toks else False
     ctx.ob(rid, 'run:tokenize-whole-input', _loc(m.f, m.f.node), 'FilterStack.run tokenizes its whole `sql` argument with one call', ok and not in_comp,
            f'tokenize calls: {[src(t) for t in toks]}: the input is lexed piecewise')
+
+
+def decode_sites(ctx):
+    """(function, text variable, encoding variable, call-site guard facts) for Lexer.get_tokens and for a private
+    helper that get_tokens hands (text, encoding) to (e.g. `text = self._decode(text, encoding)`)."""
+    from .cg import get_cg
+    repo = ctx.repo
+    cg = get_cg(ctx)
+    f = repo.func(LEXER + '.get_tokens')
+    textv, encv = f.params[1], (f.params[2] if len(f.params) > 2 else None)
+    g = Guards(f.node)
+    out = [(f, textv, encv, [])]
+    for call, callees in cg.sites.get(f.qname, []):
+        if len(call.args) >= 1 and is_name(call.args[0], textv):
+            for cq in callees:
+                h = repo.funcs[cq]
+                if h.cls is not None and h.cls.qname == LEXER and h.name != 'get_tokens':
+                    ps = [p for p in h.params if p not in ('self', 'cls')]
+                    enc_arg = None
+                    for i, a in enumerate(call.args):
+                        if is_name(a, encv) and i < len(ps):
+                            enc_arg = ps[i]
+                    for k in call.keywords:
+                        if is_name(k.value, encv):
+                            enc_arg = k.arg
+                    callers = [c for c, sites in cg.sites.items() for _, cs in sites if cq in cs]
+                    if set(callers) <= {f.qname} and ps:
+                        out.append((h, ps[0], enc_arg, [a for a in g.facts(call) if a[0] != '|']))
+    return out
+
+
+def is_decode_helper(ctx, h, datap):
+    """every return of the helper is `<data>.decode(...)` (or the data itself)"""
+    rets = [n for n in own_nodes(h.node) if isinstance(n, ast.Return)]
+    return bool(rets) and all(r.value is not None and ((isinstance(r.value, ast.Call) and is_attr(r.value.func, 'decode', datap)) or is_name(r.value, datap))
+                              for r in rets)
